@@ -96,6 +96,7 @@ def run_sequence(res, exe, rng, first, forced=None, huge=False, two=False):
         res.violation("c19/" + key, msg + " | script: " + "; ".join(script[-6:]), sim=sim, expected=exp, observed=obs)
         return False
 
+    rin = [False, 0]             # the completion callback resets the node (CONmtReset) / boot-up frames seen
     chained = [False, 0]         # a request inside the completion callback is armed / initiate frames of it seen
 
     def frames(evs):
@@ -103,6 +104,9 @@ def run_sequence(res, exe, rng, first, forced=None, huge=False, two=False):
         for (t, cid, dlc, d, f) in S.txs(evs):
             if chained[0] and cid == TX and d == bytes([0x40, 0x00, 0x20, 0x01, 0, 0, 0, 0]) and S.cbs(evs, "csdoreq"):
                 chained[1] += 1          # the initiate frame of an accepted chained request: judged by the chained-request rule below
+                continue
+            if rin[0] and cid == 0x700 + nid and d == b"\x00":
+                rin[1] += 1              # boot-up frame of the reset the application requested inside the completion callback
                 continue
             out.append((t, cid, d))
         return out
@@ -149,6 +153,11 @@ def run_sequence(res, exe, rng, first, forced=None, huge=False, two=False):
             chained[0], chained[1] = cbreq, 0
             if cbreq:
                 sim.cmd("csdocbreq 30")
+            # in one transfer of twelve the application resets the communication from inside the completion callback: that transfer
+            # has ended - still exactly one callback - and the client is idle and usable afterwards
+            rin[0], rin[1] = (not cbtimer and not cbreq and not two and not huge and tr.behaviour not in ("nmtreset", "stopped") and rng.random() < 0.08), 0
+            if rin[0]:
+                sim.cmd("resetin csdo %d" % rng.choice([1, 2]))
             if tr.up:
                 r, evs = sim.ret_ev(("csdoup %d " % cl) + "%x %x %d %d" % (tr.idx, tr.sub, tr.size, tr.timeout))
             else:
@@ -425,6 +434,11 @@ def run_sequence(res, exe, rng, first, forced=None, huge=False, two=False):
                     cb = callbacks(evs)
                     if len(cb) != 1 or cb[0][3] != TIMEOUT_CODE:
                         return fail("callback/chained-request", desc + ": the request issued inside the completion callback was accepted; callbacks until its timeout: %r, reference exactly one with 0504 0000h" % (cb,))
+            if rin[0]:
+                if rin[1] != 1:
+                    return fail("callback/reset-inside", desc + ": the completion callback reset the node: %d boot-up frames, reference 1" % rin[1])
+                res.counters["resets_inside_completion_callback"] += 1
+                rin[0] = False
             st = sim.state()
             if st["csdo%d" % cl].split(",")[0] != "1":
                 return fail("not-idle", desc + ": client state %s after completion" % st["csdo%d" % cl])
@@ -530,6 +544,8 @@ def finish(total, tier):
     p = []
     if c["transfers"] < 2000 or c["beh_silent"] < 20 or c["beh_abort"] < 20:
         p.append("too few transfers / deviations: %r" % dict(c))
+    if c["resets_inside_completion_callback"] < 50:
+        p.append("only %d resets from inside the completion callback" % c["resets_inside_completion_callback"])
     if c["resets_with_two_busy_clients"] < 10 or c["huge_timeout_sequences"] < 8:
         p.append("too few resets with two busy clients (%d) / sequences with huge timeouts (%d)" % (c["resets_with_two_busy_clients"], c["huge_timeout_sequences"]))
     return p
